@@ -129,7 +129,7 @@ def run_one(desc: List[R.Node], replace: Dict[str, str]) -> Tuple[str, str]:
     desc = normalise(desc)
     if not R.well_nested(desc):
         return "outside-precondition", "not well-nested"
-    want = R.canon(R.spec_rewrite(desc, replace, has_constraint), sigs)
+    want = R.canon(R.spec_rewrite(desc, replace, has_constraint, sigs), sigs)
     g = to_fx(desc)
     gm = fx.GraphModule(torch.nn.Module(), g)
     tmap0 = dict(U.torch_map)
